@@ -41,12 +41,6 @@ Proof.
 Qed.
 
 (** * write_at *)
-Lemma write_at_end l bs : write_at l (length l) bs = l ++ bs.
-Proof.
-  unfold write_at. rewrite Nat.sub_diag. cbn [repeat]. rewrite app_nil_r.
-  rewrite firstn_all. rewrite skipn_all2 by lia. rewrite app_nil_r. reflexivity.
-Qed.
-
 Lemma skipn_repeat {A} (x : A) n k : skipn k (repeat x n) = repeat x (n - k).
 Proof.
   revert n. induction k as [|k IH]; intros n.
@@ -54,16 +48,45 @@ Proof.
   - destruct n as [|n]; [reflexivity|]. cbn [repeat skipn]. rewrite IH. reflexivity.
 Qed.
 
+(** writing inside or at the end of the written bytes: prefix kept, bytes replaced, rest kept *)
+Lemma write_at_spec a m t bs :
+  length m = length bs -> write_at (a ++ m ++ t) (length a) bs = a ++ bs ++ t.
+Proof.
+  intros Hm. induction a as [|x a IH]; cbn [length app write_at].
+  - f_equal. rewrite <- Hm, skipn_app, skipn_all, Nat.sub_diag. reflexivity.
+  - rewrite IH. reflexivity.
+Qed.
+
+Lemma write_at_end l bs : write_at l (length l) bs = l ++ bs.
+Proof.
+  induction l as [|x l IH]; cbn [length write_at app].
+  - rewrite skipn_nil, app_nil_r. reflexivity.
+  - rewrite IH. reflexivity.
+Qed.
+
+(** writing over the start of a run of zeros *)
 Lemma write_at_zeros a z bs :
   write_at (a ++ repeat 0 z) (length a) bs = a ++ bs ++ repeat 0 (z - length bs).
 Proof.
-  unfold write_at.
-  replace (length a - length (a ++ repeat 0%N z))%nat with 0%nat by (rewrite app_length; lia).
-  cbn [repeat]. rewrite app_nil_r.
-  rewrite firstn_app, firstn_all, Nat.sub_diag. cbn [firstn]. rewrite app_nil_r.
-  rewrite skipn_app. rewrite skipn_all2 by lia. cbn [app].
-  replace (length a + length bs - length a)%nat with (length bs) by lia.
-  rewrite skipn_repeat. reflexivity.
+  induction a as [|x a IH]; cbn [length app write_at].
+  - rewrite skipn_repeat. reflexivity.
+  - rewrite IH. reflexivity.
+Qed.
+
+(** writing beyond the prefix leaves the prefix alone *)
+Lemma firstn_write_at l off bs : (off <= length l)%nat -> firstn off (write_at l off bs) = firstn off l.
+Proof.
+  revert l. induction off as [|o IH]; intros l H; [reflexivity|].
+  destruct l as [|x l]; [cbn [length] in H; lia|]. cbn [write_at firstn]. rewrite IH; [reflexivity|].
+  cbn [length] in H. lia.
+Qed.
+
+Lemma write_at_length l off bs : (off <= length l)%nat ->
+  length (write_at l off bs) = Nat.max (length l) (off + length bs).
+Proof.
+  revert l. induction off as [|o IH]; intros l H.
+  - cbn [write_at]. rewrite app_length, skipn_length. lia.
+  - destruct l as [|x l]; [cbn [length] in H; lia|]. cbn [write_at length]. rewrite IH by (cbn [length] in H; lia). lia.
 Qed.
 
 (** * blocks *)
